@@ -233,7 +233,11 @@ def run_check(prop, tier, seed, replay=None):
 
     viol_dir = os.path.join(OUT, "violations", prop)
     os.makedirs(viol_dir, exist_ok=True)
+    if not replay:
+        for f in os.listdir(viol_dir):              # replay files of earlier runs would be misleading
+            os.remove(os.path.join(viol_dir, f))
     n_viol, known_hit, viol_list = 0, [], []
+    printed_known = set()
     for sig, hits in sorted(by_sig.items()):
         owner, clause, shape = sig.split("|", 2)
         match = None
@@ -244,7 +248,9 @@ def run_check(prop, tier, seed, replay=None):
         ti, pos, clause, ev = hits[0]
         if match:
             known_hit.append({"id": match.get("id"), "signature": sig, "hits": len(hits)})
-            print("KNOWN-FINDING: property=%s %s [%s, %d hits]" % (owner, match["what"], sig, len(hits)))
+            if match.get("id") not in printed_known:
+                printed_known.add(match.get("id"))
+                print("KNOWN-FINDING: property=%s %s [id %s]" % (owner, match["what"], match.get("id")))
             continue
         h = hashlib.sha1(sig.encode()).hexdigest()[:12]
         path = os.path.join(viol_dir, h + ".json")
